@@ -336,6 +336,7 @@ func runC08(c *Ctx) {
 	checkCarryOver(c, p, ts, read)
 	// ---- R08.5 decoder window --------------------------------------------------------------
 	checkDecoderWindow(c, p, ts, read)
+	checkAllBytesAtEOF(c, p, ts, read)
 	// ---- R06.3 tokenizer state survives a buffer refill (padding moves text across refill boundaries)
 	checkFlagsSurviveRefill(c, p)
 }
@@ -439,6 +440,8 @@ func checkCarryOver(c *Ctx, p *core.Prog, ts *ssa.Function, read *ssa.Call) {
 			okAll, why = false, "the leftover bytes are copied into a different buffer"
 		} else if !isS || !sameSliceBase(ss.X, buf) || ss.Low == nil || ss.High != nil {
 			okAll, why = false, "the bytes carried over are not buf[consumed:]"
+		} else if scan := scanPosition(ts); scan != nil && core.Unspill(ss.Low) != scan {
+			okAll, why = false, "the bytes carried over start at "+core.AP(ss.Low)+", not at the position the rune loop stopped at: the bytes between the two are lost or decoded twice (a rune that straddles the window edge is torn)"
 		}
 	}
 	if nBack == 0 {
@@ -448,6 +451,121 @@ func checkCarryOver(c *Ctx, p *core.Prog, ts *ssa.Function, read *ssa.Call) {
 		why = "offset = copy(buf, buf[consumed:]) on the loop's back edge, 0 initially"
 	}
 	c.R.Check(okAll, "R08.4", "tokenizeStream: the next read continues exactly after the bytes carried over from the previous window", p.Pos(read.Pos()), why, why)
+}
+
+// scanPosition: the loop-carried index of the rune loop - the low bound of the slice the rune decoder is given.
+func scanPosition(ts *ssa.Function) ssa.Value {
+	for _, call := range core.CallsIn(ts) {
+		if !strings.HasPrefix(core.StaticCalleeName(call.Common()), "unicode/utf8.DecodeRune") {
+			continue
+		}
+		if arg, ok := call.Common().Args[0].(*ssa.Slice); ok && arg.Low != nil {
+			if ph, isPhi := core.Unspill(arg.Low).(*ssa.Phi); isPhi {
+				return ph
+			}
+		}
+	}
+	return nil
+}
+
+// checkAllBytesAtEOF: R08.8. When the reader reports the end of the input, everything that is in the buffer is consumed: on
+// every way from the end-of-input branch to the rune loop, the bound that the scan position is compared with is the end of
+// the valid bytes. (A bound that stays at the window target leaves the last bytes of the input behind whenever they
+// happen to lie beyond it.)
+func checkAllBytesAtEOF(c *Ctx, p *core.Prog, ts *ssa.Function, read *ssa.Call) {
+	scan, _ := scanPosition(ts).(*ssa.Phi)
+	if scan == nil {
+		return
+	}
+	header := scan.Block()
+	ifi, ok := header.Instrs[len(header.Instrs)-1].(*ssa.If)
+	if !ok {
+		return
+	}
+	cmp, ok := ifi.Cond.(*ssa.BinOp)
+	if !ok || cmp.Op != token.LSS || cmp.X != ssa.Value(scan) {
+		c.R.Info("R08.8", "tokenizeStream: bound of the rune loop", p.Pos(header.Instrs[0].Pos()), "the rune loop is not of the form `for idx < bound`")
+		return
+	}
+	bound := cmp.Y
+	// the end of the valid bytes: the high bound of the decoder's slice
+	var endV ssa.Value
+	for _, call := range core.CallsIn(ts) {
+		if strings.HasPrefix(core.StaticCalleeName(call.Common()), "unicode/utf8.DecodeRune") {
+			if arg, ok := call.Common().Args[0].(*ssa.Slice); ok {
+				endV = arg.High
+			}
+		}
+	}
+	if endV == nil {
+		return
+	}
+	// blocks entered on the true edge of an end-of-input test on the reader's error
+	var errVal ssa.Value
+	for _, r := range *read.Referrers() {
+		if ex, ok := r.(*ssa.Extract); ok && ex.Index == 1 {
+			errVal = ex
+		}
+	}
+	nPaths, bad := 0, ""
+	for _, b := range ts.Blocks {
+		bi, ok := b.Instrs[len(b.Instrs)-1].(*ssa.If)
+		if !ok {
+			continue
+		}
+		bo, ok := bi.Cond.(*ssa.BinOp)
+		if !ok || bo.Op != token.EQL || bo.X != errVal || !isEOFSentinel(bo.Y) {
+			continue
+		}
+		if !b.Dominates(header) && !reaches(b, header) {
+			continue
+		}
+		from := b.Succs[0]
+		paths, okP := eng.EnumPaths(from, header, func(x *ssa.BasicBlock) bool { return x == b }, 64)
+		if !okP {
+			c.R.Undecided("R08.8", "tokenizeStream: end of input", p.Pos(bi.Pos()), "too many paths from the end-of-input branch to the rune loop")
+			return
+		}
+		for _, pa := range paths {
+			// only first entries into the rune loop (not its own back edges)
+			if len(pa.Blocks) >= 2 && header.Dominates(pa.Blocks[len(pa.Blocks)-2]) {
+				continue
+			}
+			nPaths++
+			full := append([]*ssa.BasicBlock{b}, pa.Blocks...)
+			v := bound
+			for d := 0; d < 8; d++ {
+				ph, isPhi := v.(*ssa.Phi)
+				if !isPhi {
+					break
+				}
+				next := v
+				for i, blk := range full {
+					if blk == ph.Block() && i > 0 {
+						for k, pr := range blk.Preds {
+							if pr == full[i-1] {
+								next = ph.Edges[k]
+							}
+						}
+					}
+				}
+				if next == v {
+					break
+				}
+				v = next
+			}
+			if v != endV {
+				bad = "on a way from the end-of-input branch into the rune loop the loop runs up to " + core.AP(v) + ", not up to the end of the valid bytes"
+			}
+		}
+	}
+	if nPaths == 0 {
+		c.R.Info("R08.8", "tokenizeStream: end of input", p.Pos(header.Instrs[0].Pos()), "no path from an end-of-input test to the rune loop found")
+		return
+	}
+	c.R.Check(bad == "", "R08.8", "tokenizeStream: at the end of the input the rune loop consumes every valid byte of the buffer", p.Pos(header.Instrs[0].Pos()),
+		fmt.Sprintf("%d way(s) from the end-of-input branch into the rune loop, the bound is the end of the valid bytes on each", nPaths),
+		bad+": the last bytes of an input whose length puts them beyond the window target are never tokenized")
 }
 
 func sameSliceBase(a, b ssa.Value) bool {
